@@ -55,6 +55,20 @@ type ev struct {
 	a, b int64  // load: value ; cas: new, ok ; lsn: from,to ; ret: admitted
 	t    uint64 // virtual ms
 	req  int
+	addr uintptr // load | cas | store: the word accessed
+}
+
+// The state word of the breaker under test is recognised by behaviour, not by name: it is the int32 word whose
+// successful compare-and-swap is what its caller reports to the state change listeners next. Accesses to any other
+// int32 word (a refactor may add some) are then left out of the trace. Until a transition has been seen every int32
+// access counts, as before.
+var stateAddr uintptr
+var lastCAS = map[int]uintptr{}
+
+func learnState() {
+	if stateAddr == 0 {
+		stateAddr = lastCAS[coop.Me()]
+	}
 }
 
 var run *vk.Run
@@ -65,12 +79,15 @@ var caseNo int
 type lsn struct{}
 
 func (lsn) OnTransformToClosed(prev cb.State, rule cb.Rule) {
+	learnState()
 	trace = append(trace, ev{w: coop.Me(), kind: "lsn", a: int64(prev), b: Closed, t: clk.Ms()})
 }
 func (lsn) OnTransformToOpen(prev cb.State, rule cb.Rule, _ interface{}) {
+	learnState()
 	trace = append(trace, ev{w: coop.Me(), kind: "lsn", a: int64(prev), b: Open, t: clk.Ms()})
 }
 func (lsn) OnTransformToHalfOpen(prev cb.State, rule cb.Rule) {
+	learnState()
 	trace = append(trace, ev{w: coop.Me(), kind: "lsn", a: int64(prev), b: HalfOpen, t: clk.Ms()})
 }
 
@@ -137,6 +154,16 @@ func execute(s *scen, ch coop.Chooser) (res *coop.Result, clause, msg string) {
 	defer cb.ClearRulesOfResource(name)
 	clk.AddMs(1000000)
 	trace = trace[:0]
+	stateAddr = 0
+	for k := range lastCAS {
+		delete(lastCAS, k)
+	}
+	vatomic.After = func(op string, addr unsafe.Pointer, v int64, ok bool) { // sequential pre-phase: only learn the state word
+		if op == "CompareAndSwapInt32" && ok {
+			lastCAS[coop.Me()] = uintptr(addr)
+		}
+	}
+	defer func() { vatomic.After = nil }()
 	reqCtr := 0
 	enter := func() (*base.SentinelEntry, bool) {
 		e, b := sentinel.Entry(name)
@@ -229,15 +256,16 @@ func execute(s *scen, ch coop.Chooser) (res *coop.Result, clause, msg string) {
 		}
 		switch op {
 		case "LoadInt32":
-			trace = append(trace, ev{w: w, kind: "load", a: v, t: clk.Ms()})
+			trace = append(trace, ev{w: w, kind: "load", a: v, t: clk.Ms(), addr: uintptr(addr)})
 		case "CompareAndSwapInt32":
 			b := int64(0)
 			if ok {
 				b = 1
+				lastCAS[w] = uintptr(addr)
 			}
-			trace = append(trace, ev{w: w, kind: "cas", a: v, b: b, t: clk.Ms()})
+			trace = append(trace, ev{w: w, kind: "cas", a: v, b: b, t: clk.Ms(), addr: uintptr(addr)})
 		case "StoreInt32":
-			trace = append(trace, ev{w: w, kind: "store", a: v, t: clk.Ms()})
+			trace = append(trace, ev{w: w, kind: "store", a: v, t: clk.Ms(), addr: uintptr(addr)})
 		}
 	}
 	fns := make([]func(), len(s.Workers))
@@ -307,6 +335,16 @@ func execute(s *scen, ch coop.Chooser) (res *coop.Result, clause, msg string) {
 		return res, "panic", fmt.Sprintf("worker %d panicked: %s", w, p)
 	}
 	// ---------------------------------------------------------------- oracle
+	if stateAddr != 0 {
+		kept := trace[:0]
+		for _, e := range trace {
+			if e.addr != 0 && e.addr != stateAddr {
+				continue
+			}
+			kept = append(kept, e)
+		}
+		trace = kept
+	}
 	retry := uint64(s.Retry)
 	state := init
 	lastOpenT := openedAt
